@@ -23,8 +23,10 @@ SPEC = {
             "log(1/(1-epsilon)) + 1e-9 in log-scale bottleneck distance (decided by bipartite matching with diagonal copies; bars born at 0 / "
             "essential bars only match their like). "
             "config exact: integer tree metrics (weights (1..1000) x {1,16,256}) whose greedy permutation from the drawn start has no tie, "
-            "epsilon in {1/2,1/4,1/8}, dim_max 1..4: the complex equals, simplex by simplex and value by value, the one derived from the "
-            "documented construction (buchet16efficient, values doubled) for the observed start. "
+            "epsilon in {1/2,1/4,1/8}, dim_max 1..4 (all arithmetic exact): every vertex present, no simplex above dim_max, no simplex earlier than "
+            "its diameter, closed under faces, monotone; whether the complex equals, simplex by simplex and value by value, the one derived from the "
+            "documented construction (buchet16efficient, values doubled) for the observed start is COUNTED (info.exact.*), not judged: the property "
+            "does not prescribe the construction. "
             "config h0_large: n = 200..500 (thorough ..1500), dim_max 1, integer grids l1/linf, tree metrics, rounded cube / multi-scale "
             "clusters / geometric line, epsilon 10^-k or U(.05,.99): all points are vertices, no edge earlier than its length, H_0 within the "
             "bound (sorted minimum-spanning-tree weights: Prim on the metric, Kruskal on the sparse graph). "
@@ -64,6 +66,9 @@ SPEC = {
          "configs": {"grid": {"thorough": 6000}, "scales": {"thorough": 6000}, "rounded": {"thorough": 6000}, "validity": {"thorough": 6000},
                      "large": {"thorough": 1000}, "exact": {"thorough": 6000}}, "chunk": 50},
     ],
+    # per-shard wall-clock watchdog (a quick shard takes < 30 s): a change that makes the construction loop for ever must not cost the
+    # default 1800 s per hanging shard
+    "timeout": {"quick": 300, "thorough": 3600},
     "floors": {
         "quick": {"guarantee.cases": 5000, "state.sparse_strictly_smaller": 3000, "state.some_value_raised": 2800,
                   "state.blocker_removed_simplices": 400, "edge.raised": 30000, "edge.dropped": 85000,
@@ -109,8 +114,8 @@ SPEC = {
                 "twice; for epsilon < 1 a subcomplex of the Rips complex never earlier than the diameter; and without bounds its Z_2 (or Z_3) "
                 "persistence diagrams, computed by an independent textbook reduction, must be within log(1/(1-epsilon)) of those of the "
                 "brute-force Rips filtration in log-bottleneck distance in every dimension < dim_max (decided by an independent matching "
-                "procedure). On tie-free integer tree metrics with dyadic epsilon the complex must equal exactly the one derived from the "
-                "documented construction; at 200-1500 points the H_0 part of the guarantee is checked through minimum spanning trees; the "
+                "procedure). On tie-free integer tree metrics with dyadic epsilon the sub-filtration properties are decided in exact arithmetic "
+                "(and the agreement with the documented construction is recorded as evidence, not required); at 200-1500 points the H_0 part of the guarantee is checked through minimum spanning trees; the "
                 "farthest-point ordering the constructor relies on is checked against its definition up to 400 points. Held on what was "
                 "observed, not a proof. Outside the exact configuration the bound is loose on such small inputs (observed distances are mostly "
                 "below half of it), so there the monitor detects constructions that lose or mis-time simplices grossly, not changes that keep "
